@@ -230,7 +230,7 @@ def _run_case(case):
         uend, stats = ctrl.run(u0, ta, tb)
         ev = list(hook.events)
         steps = sorted([(e['time'], e['dt'], e['iter'], e['dig'][0]['uend']) for e in ev if e['cb'] == 'post_step' and not e.get('restart')], key=lambda x: x[0])
-        return dict(uend=digest(uend), uend_obj=uend, uend_arr=np.array(np.asarray(uend), copy=True), stats=stats_digest(stats), trace=trace_digest(ev), steps=steps)
+        return dict(uend=digest(uend), uend_obj=uend, uend_arr=np.array(np.asarray(uend), copy=True), stats=stats_digest(stats), stats_obj=stats, trace=trace_digest(ev), steps=steps)
 
     try:
         c1 = fresh()
@@ -281,6 +281,9 @@ def _run_case(case):
     rnd = case['initial_guess'] == 'random'
     again = execute(c1, u_init(c1), t0, Tend)
     same(base, again, 'same-controller-rerun-reproduces', mech='random-initial-guess-rng-not-rewound-between-runs' if rnd else ('k-dependent-preconditioner-state-survives-a-run' if kdep else None))
+    # what the first run returned belongs to the caller: using the controller again must not change it
+    r.check(stats_digest(base['stats_obj']) == base['stats'], 'earlier-results-survive-a-rerun', f"{tag}: the statistics returned by the first run() changed when the same controller was run again: {len(base['stats'])} entries when returned, {len(base['stats_obj'])} now")
+    r.check(digest(base['uend_obj']) == base['uend'], 'earlier-results-survive-a-rerun', f'{tag}: the value returned by the first run() changed when the same controller was run again')
     # R3 fresh controller built after an unrelated controller was built and run
     u = unrelated_controller()
     run_unrelated(u)
@@ -415,7 +418,7 @@ def _run_case(case):
 def finalize(agg):
     out = []
     c = agg['counters']
-    for k in ('oracle:fresh-controller-reproduces', 'oracle:same-controller-rerun-reproduces', 'oracle:fresh-after-unrelated-controller', 'oracle:interleaved-with-unrelated-controller', 'oracle:split-run-bit-identical', 'oracle:unaffected-by-near-twin-controller', 'oracle:controllers-sharing-a-parameter-dictionary'):
+    for k in ('oracle:fresh-controller-reproduces', 'oracle:same-controller-rerun-reproduces', 'oracle:fresh-after-unrelated-controller', 'oracle:interleaved-with-unrelated-controller', 'oracle:split-run-bit-identical', 'oracle:unaffected-by-near-twin-controller', 'oracle:controllers-sharing-a-parameter-dictionary', 'oracle:earlier-results-survive-a-rerun'):
         if c.get(k, 0) == 0:
             out.append(f'monitor {k} never evaluated')
     if c.get('shared_containers_watched', 0) == 0:
